@@ -107,6 +107,7 @@ def itercapture(source, field, pattern, newfields, include_original, flags,
     flds = list(map(text_type, hdr))
     if isinstance(field, int) and field < len(hdr):
         field_index = field
+        field = hdr[field_index]
     elif field in flds:
         field_index = flds.index(field)
     else:
